@@ -197,6 +197,47 @@ func zooCases() map[string]zooCase {
 		return none
 	}, `(mm.a === mm.a) + "," + (mm.p === mm.p) + "," + (mm === mm)`}
 	m["setlength_thrown_value"] = slice(`try { s.length = {valueOf: function(){ throw 42; }}; "no-throw" } catch (e) { typeof e + ":" + e }`)
+	// behaviour defined by the bridged-container repair campaign (errors instead of Go panics)
+	catching := func(body string) string {
+		return `(function(){ try { ` + body + ` } catch (e) { return "caught:" + e.name; } })()`
+	}
+	m["setlength_huge"] = slice(catching(`s.length = 1e100; return "len:" + s.length;`))
+	m["setlength_2p32"] = slice(catching(`s.length = 4294967296; return "len:" + s.length;`))
+	m["setlength_fraction"] = slice(catching(`s.length = 1.5; return "len:" + s.length;`))
+	m["setlength_nan"] = slice(catching(`s.length = NaN; return "len:" + s.length;`))
+	m["setlength_string"] = slice(catching(`s.length = "2"; var a = s.length; s.length = "x"; return "len:" + a + "," + s.length;`))
+	m["setlength_negative"] = slice(catching(`s.length = -1; return "len:" + s.length;`))
+	m["define_accessor_on_slice"] = slice(catching(`Object.defineProperty(s, "0", {get: function(){ return 7; }}); return "v:" + s[0];`))
+	m["define_value_on_slice"] = slice(catching(`Object.defineProperty(s, "0", {value: 7, writable: true, enumerable: true, configurable: true}); return "v:" + s[0];`))
+	nested := func(script string) zooCase {
+		return zooCase{func(vm *otto.Otto) func() string {
+			ss := []zT{{C: 1}}
+			nn := [][]int{{1}}
+			pp := []*zT{{C: 1}}
+			aa := [][2]int{{1, 2}}
+			ii := []interface{}{1}
+			var fn func()
+			vm.Set("ss", ss)
+			vm.Set("nn", nn)
+			vm.Set("pp", pp)
+			vm.Set("aa", aa)
+			vm.Set("ii", ii)
+			vm.Set("fn", fn)
+			vm.Set("pt", &zT{C: 9})
+			return func() string {
+				return fmt.Sprintf("%v|%v|%v|%v|%T:%v", ss, nn, pp[0] == nil, aa, ii[0], ii[0])
+			}
+		}, script}
+	}
+	m["store_number_into_struct_elem"] = nested(catching(`ss[0] = 1; return "stored";`))
+	m["store_number_into_slice_elem"] = nested(catching(`nn[0] = 1; return "stored";`))
+	m["store_array_into_slice_elem"] = nested(catching(`nn[0] = [4, 5]; return "stored:" + nn[0].join();`))
+	m["store_number_into_pointer_elem"] = nested(catching(`pp[0] = 1; return "stored";`))
+	m["store_null_into_pointer_elem"] = nested(catching(`pp[0] = null; return "stored:" + String(pp[0]);`))
+	m["store_bridged_pointer_into_pointer_elem"] = nested(catching(`pp[0] = pt; return "stored:" + pp[0].C;`))
+	m["store_long_array_into_array_elem"] = nested(catching(`aa[0] = [7, 8, 9]; return "stored:" + aa[0].join();`))
+	m["store_utf16_string_into_interface_elem"] = nested(catching(`ii[0] = String.fromCharCode(65); return "stored:" + ii[0];`))
+	m["nil_func_reads_undefined"] = nested(`typeof fn + "," + String(fn)`)
 	return m
 }
 
